@@ -49,6 +49,9 @@ def check_temperature(model: str,
                       tmin: float,
                       tmax: float):
     """Raise a TemperatureOutOfRangeWarning if applicable"""
+    if np.size(temperature) == 0:
+        # nothing to check (no events)
+        return
     if np.min(temperature) < tmin or np.max(temperature) > tmax:
         warnings.warn(
             f"For the {model} model, the temperature should be "
